@@ -1405,6 +1405,10 @@ where
     #[inline(always)]
     fn skip_number_unsafe(&mut self) -> Result<()> {
         let _ = self.get_next_token([b']', b'}', b','], 0);
+        // do not include the whitespace between the number and the next token
+        while self.read.index() > 0 && is_whitespace(self.read.at(self.read.index() - 1)) {
+            self.read.backward(1);
+        }
         Ok(())
     }
 
